@@ -89,6 +89,7 @@ int main(int argc, const char *argv[]) {
     if (lexer.hasLine()) {
       std::cerr << "  " << lexer.getLine() << "\n";
     }
+    return 1;
   } catch (const std::exception &e) {
     std::cerr << "Error: " << e.what() << "\n";
     return 1;
